@@ -58,7 +58,12 @@ impl KList {
         } else {
             ctx.push_container(id);
 
-            for (i, value) in self.data().iter().enumerate() {
+            // Displaying an element can run script code that accesses the list (via @display),
+            // so the list's data isn't kept borrowed while the elements are rendered.
+            for i in 0..self.len() {
+                let Some(value) = self.data().get(i).cloned() else {
+                    break;
+                };
                 if i > 0 {
                     ctx.append(", ");
                 }
